@@ -6,7 +6,7 @@ V = os.path.dirname(os.path.dirname(os.path.abspath(__file__)))
 sys.path.insert(0, os.path.join(V, "lib"))
 CONT = "Coq invariants over every event list accepted by the container/heap-manager acceptor (Container.step) + acceptance of the hooked library's event traces (sequential, perturbed, fault-injected scenarios) + executable monitor on the implementation's own trace"
 CLAIMED = {
- "C03": (CONT, "Acceptor checks every frame's content against the model (rows carry the bar's snapshot at render time); monitor: last frame shows every remaining bar in its final state, dropped bars absent, no output after Wait. Theorems in Props/C03.v (no output after Wait for every continuation; rows carry the render snapshot; cancelled only after a terminal frame; every bar once; removed bars never drawn again). Defect D9 (a bar cancelled while its actor is busy drawn running in the last frame) was found by a directed hold/release witness and is fixed in /repo.", "0.3 (D9), 0.7, 7 (C03)"),
+ "C03": (CONT, "Acceptor checks every frame's content against the model (rows carry the bar's snapshot at render time); monitor: last frame shows every remaining bar in its final state, dropped bars absent, no output after Wait. Theorems in Props/C03.v (no output after Wait for every continuation; rows carry the render snapshot; cancelled only after a terminal frame; every bar once; removed bars never drawn again; with auto refresh the container returns only after a cycle that ended after done). Defect D9 (a bar cancelled while its actor is busy drawn running in the last frame) was found by a directed hold/release witness and is fixed in /repo.", "0.3 (D9), 0.7, 7 (C03)"),
  "C04": (CONT, "Theorems in Props/C04.v over the line terminal Term.v: every frame replaces exactly the live rows of the one before, cursor-up = live rows, rows <= height, nothing before the delay ends, redraw exact on a window with a spare row (and refuted without), render keeps height-1 rows (constant re-read from the source). Tie: acceptor's exact frame prediction + line-level replay monitor + the pty family (real pseudo terminal 4-11 rows, bytes replayed on a VT of that size with scrollback). Defect D6 found by the pty family is fixed in /repo.", "0.3 (D6), 0.7, 7 (C04)"),
  "C05": (CONT, "Theorems Props/C05.v: a bar is in exactly one place or gone for good (NoDup over heap/queue/pushes/popped/parked/retired) for every accepted trace; a frame's bars are the heap at that cycle's iteration; requests are received in the order sent; every heap request is one blocking send (re-read from the source). Monitor: no bar twice, none vanishing and returning, bars present unless they left legitimately.", "0.3 (D5), 0.7, 7 (C05)"),
  "C06": (CONT, "Theorems Props/C06.v: pops of a clean cycle are in non-increasing priority, flush order = pop order, immediate/lazy fix semantics, every iteration restores order; the priority queue itself (priority_queue.go under container/heap, PQueue.v) keeps heap order, multiset and index fields in every run, Pop returns a maximum, Fix restores order, tied to the code by the differential pq family (exact slice order incl. ties). Monitor on HM_POP priorities, row order and priority changes reaching the heap.", "7 (C06)"),
@@ -24,7 +24,7 @@ CLAIMED = {
          "7 (C11), 8 (D1)"),
  "C12": ("Coq theorems on the width rendezvous as a transition system (never stuck, 2 steps per channel, common column width = maximum need) for every layout and interleaving + trace monitor on the library's width-exchange events",
          "Props/C12.v over Sync.v for any number of bars/decorators, plus ContainerMatrix: the heap manager's cached sync matrices are built from exactly the heap whenever a cycle's sync request has been served (never stale). Monitor checks each cycle's columns (membership by side and ordinal, distributed maximum, each member's received width, each decorator's needed width incl. W and extra space) on hooked traces with 0-3 synchronised decorators per side under perturbation; the acceptor checks the cache fields of every HM_SYNC.", "0.7, 7 (C12)"),
- "C13": (CONT, "Theorems in Props/C13.v: accepted text = text written ++ text waiting, once and in order, in every state of every accepted trace; each Write call is [cursor-up] text* row*; nothing after Wait. Tie: the acceptor predicts the text items of every frame; the harness reuses one scratch buffer for all writes (a Write that returns before copying is seen); monitor: every accepted write emitted once, in order, above rows, before Wait returns, late Write = (0, ErrDone).", "0.7, 7 (C13)"),
+ "C13": (CONT, "Theorems in Props/C13.v: accepted text = text written ++ text waiting, once and in order, in every state of every accepted trace; each Write call is [cursor-up] text* row*; nothing after Wait; with auto refresh and no write error everything accepted has been written when the container returns. Tie: the acceptor predicts the text items of every frame; the harness reuses one scratch buffer for all writes (a Write that returns before copying is seen); monitor: every accepted write emitted once, in order, above rows, before Wait returns, late Write = (0, ErrDone).", "0.7, 7 (C13)"),
  "C14": (CONT, "Theorems in Props/C14.v: cancelled bar reports aborted, completed stays completed, the actor exits once, each shutdown listener is called once under any number of wrappers (Listen.v), the heap manager ends once, the notifier lists exactly the heap, cancellation is sticky. Tie: traces with cancel/Shutdown at every script position and under perturbation; acceptor checks BAR_EXIT/FINAL/NOTIFY against the model; monitor on stops, listener counts (0-4 wrappers deep) and the notifier.", "0.7, 7 (C14)"),
  "C15": ("fault injection at k-th Fill / extender call / output Write on hooked scenarios + monitor (error reported once, no frame afterwards, Wait returns, no hang, no leak); width-rendezvous theorems (Sync.v) for the mid-sync case",
          "Theorems in Props/C15.v over the acceptor: the error latches, cancels and no cycle begins again; no further frame in any continuation; reported at most once; the failing cycle is drained; width sync cannot wedge. Tie: faults family (k-th Fill / extender / Write fails; half perturbed; a second manual refresh pending during the failing cycle) replayed by the model + monitor (error line exactly once, no frame afterwards, Wait returns, no leak). Defect D8 is fixed in /repo.", "0.3 (D8), 0.7, 7 (C15)"),
